@@ -77,7 +77,7 @@ def main():
             chk.corr["compared"] += 1
             tn = common.mangled_type_names(st["S5"][1]) if "S5" in st and st["S5"][0] == "OK" else set()
             mod_text = mo.split("\n", 1)[1] if mo and mo.startswith("OK ") and "\n" in mo else (mo or "")
-            if common.canon_labels(st["S7x"][1], tn) != common.canon_labels(mod_text, tn):
+            if common.strip_comments(common.canon_labels(st["S7x"][1], tn)) != common.strip_comments(common.canon_labels(mod_text, tn)):
                 if lad.ask("typ labelsafe %s" % lad.dump(st, "S5")) != "OK false":
                     chk.corr["disagreements"] += 1
                     chk.model_disagreements.append({"file": path, "pass": "pipeline(S1->x86 text)", "model": (mo or "")[:200]})
